@@ -2,7 +2,7 @@ SPECIFICATION Spec
 CONSTANTS W = 5
           WS = 5
           Deep = {}
-          OptSet = {"default", "useall", "export", "exporttop", "useall_export", "tng", "tng_export", "tng_exporttop"}
+          OptSet = {"default", "useall", "export", "exporttop", "useall_export", "tng", "tng_export", "tng_exporttop", "throw", "custom"}
           Reps = 1
           RepW = 0
           Which = "all"
